@@ -53,7 +53,7 @@ type replay struct {
 
 func contextsFor(cs *Case, idx int, thorough bool) []ctxSpec {
 	all := []int{kTip, kReorg, kDeferred, kOrphan, kTemplate, kReopen, kFork, kForkBad, kReopenReorg, kReopenDeferred, kOrphanReorg,
-		kHeaderFirst, kHeaderFirstReorg, kChildAfter, kReorgDeep, kRestore, kReopenRestore}
+		kHeaderFirst, kHeaderFirstReorg, kChildAfter, kReorgDeep, kRestore, kReopenRestore, kReactivated}
 	var out []ctxSpec
 	if thorough {
 		for _, k := range all {
@@ -75,7 +75,7 @@ func contextsFor(cs *Case, idx int, thorough bool) []ctxSpec {
 		{kDeferred, b}, {kOrphan, a}, {kTemplate, b}, {kReopen, a},
 		{kFork, b}, {kForkBad, a}, {kReopenReorg, b}, {kReopenDeferred, a}, {kOrphanReorg, b},
 		{kHeaderFirst, a}, {kHeaderFirstReorg, b}, {kChildAfter, a}, {kReorgDeep, b},
-		{kRestore, a}, {kRestore, b}, {kReopenRestore, b},
+		{kRestore, a}, {kRestore, b}, {kReopenRestore, b}, {kReactivated, a},
 	}
 }
 
